@@ -6,6 +6,8 @@
 From Coq Require Import Permutation.
 From PSA Require Import model.Bytes model.Dhcp model.Clients model.Ipdb spec.SpecTable model.Server model.Config spec.SpecConfig
   proofs.ConfigProofs.
+From PSA Require spec.Monitors.
+From PSA Require Import model.Server proofs.WireProofs proofs.WireInv proofs.WireLease proofs.WireSnap proofs.WireConfig.
 Open Scope N_scope.
 
 (* A configuration that is accepted meets every validity condition.  valid_config is a record with one
@@ -88,6 +90,29 @@ Print Assumptions C18_limits.
    router and DNS override and host name, one with NTP only), own address .2: accepted, with exactly two
    permanent bindings.  The same with a second entry for aa:bb:cc:dd:ee:ff (another spelling), a 64-entry DNS
    list, a 2^32-second lease, or an unparsable client address: rejected. *)
+(* "its behaviour is a deterministic function of the configuration in which every configured value is in effect": from the
+   configuration language to the wire.  scfg_of is the configuration of the handler model (model/Server.v) that an accepted
+   configuration gives rise to: reservations = the static entries, option lists = expected_options, lease = the configured
+   duration, ranges = those New computed.  (1) It meets every configuration premise of the wire-level theorems, and the table the
+   handler model starts from is exactly the table New built.  (2) Hence, for every accepted configuration, every sequential
+   history the acceptor accepts satisfies the monitors of C01-C08 and C10.  Strings of the configuration are byte strings and
+   addresses 32-bit numbers (config_bytes_ok and the two bounds). *)
+Theorem C18_accepted_configuration_meets_wire_premises : forall c own own_mac s, new_server c own own_mac = Ok s -> config_bytes_ok c ->
+  (forall ip mask, g_network c = Net4 ip mask -> ip < 4294967296 /\ mask < 4294967296) -> s_self s < 4294967296 ->
+  let sc := scfg_of c (s_self s) own_mac (reserved_ns s) (s_db s) in
+  cfg_wire_ok sc /\ cfg_srv_ok sc /\ cfg_lease_ok sc /\ cfg_c07_ok sc /\ durations_ok sc /\ initial_table sc = s_table s.
+Proof. exact accepted_config_premises. Qed.
+Print Assumptions C18_accepted_configuration_meets_wire_premises.
+
+Theorem C18_accepted_configuration_to_the_wire : forall c own own_mac s h, new_server c own own_mac = Ok s -> config_bytes_ok c ->
+  (forall ip mask, g_network c = Net4 ip mask -> ip < 4294967296 /\ mask < 4294967296) -> s_self s < 4294967296 ->
+  let sc := scfg_of c (s_self s) own_mac (reserved_ns s) (s_db s) in
+  Forall wf_round h -> snap_times 0%Z h -> accepted sc h ->
+  Monitors.mon_C01 sc h = true /\ Monitors.mon_C02 sc h = true /\ Monitors.mon_C03 sc h = true /\ Monitors.mon_C04 sc h = true /\ Monitors.mon_C05 sc h = true /\
+  Monitors.mon_C06 sc h = true /\ Monitors.mon_C07 sc h = true /\ Monitors.mon_C08 sc h = true /\ Monitors.mon_C10 sc h = true.
+Proof. exact accepted_config_to_the_wire. Qed.
+Print Assumptions C18_accepted_configuration_to_the_wire.
+
 Example C18_nonvacuous :
   let mac1 := [170; 187; 204; 221; 238; 255] in let mac2 := [170; 187; 204; 221; 238; 1] in let own_mac := [2; 0; 0; 0; 0; 1] in
   let k1 := {| k_key := Mac mac1; k_ip := V4 3232235786; k_router := V4 3232236030; k_dns := [V4 151587081]; k_ntp := []; k_hostname := [112; 114] |} in
